@@ -1,3 +1,5 @@
+import IpcModel.InprocReg
+import IpcModel.Inproc
 import IpcModel.Lemmas.RefineRun
 import IpcModel.GenIpc
 import IpcModel.GenOwn
@@ -64,5 +66,24 @@ example : (Ideal.run demo).2 = (Unix.run demo).2 := by decide
 /-- the states differ on what no longer exists (the specification emptied channel 1's queue, the kernel still holds the
 unreachable packets), which is why the relation compares only what exists -/
 example : ((Unix.run demo).1.chans.map (·.queue.length), (Ideal.run demo).1.chans.map (·.queue.length)) = ([1, 2, 0, 1], [0, 0, 0, 1]) := by decide
+
+/-- **C19_inproc** — the third transport: the in-process one answers what its queue answers (`Inproc.spec`), for every receive flavour
+and outcome, and its statement facts match the ideal channel's rules (unbounded queue, a moved receiver leaves nothing
+behind, `send` passes data / channels / regions on as given) — all regenerated from the source. -/
+theorem C19_inproc (c : Gen.XCall) (x : Inproc.XB) (h : Inproc.possible c x = true) :
+    Inproc.codeAnswer c x = Inproc.spec x ∧
+    (Gen.inprocUnbounded = true ∧ Gen.inprocConsumeTakes = true ∧ Gen.inprocSendPassesThrough = true ∧ Gen.inprocAddMoves = true) :=
+  ⟨(Inproc.code_answers c x h).1, Inproc.shape⟩
+
+/-- **C19_inproc_rendezvous** — one-shot servers on the in-process transport answer a connect as the OS transports do (`OneShot.step`'s rule:
+success iff a server with that name is still listening): success iff the server is still waiting, an error otherwise,
+never a panic (registry operations regenerated from the source; the two models are compared with the real builds by the
+registry scripts of the `oneshotip` scenario). -/
+theorem C19_inproc_rendezvous (ops : List InprocReg.Op) (n : Nat) :
+    InprocReg.codeVariant = InprocReg.fixed ∧
+    (InprocReg.step InprocReg.fixed (InprocReg.run InprocReg.fixed ops).1 (.connect n)).2
+      = (if (InprocReg.run InprocReg.fixed ops).1.phase[n]? = some .live then .connected n else .err) ∧
+    InprocReg.Res.panic ∉ (InprocReg.run InprocReg.fixed ops).2 :=
+  ⟨InprocReg.code_variant.1, (InprocReg.connect_spec ops n).1, InprocReg.no_panic ops⟩
 
 end C19
